@@ -247,6 +247,12 @@ def check_chains(ctx: Ctx) -> None:
         dv = dotted(next(k.value for k in mda[0].keywords if k.arg == "disciplines"))
         dd = [s for s in ast.walk(loops[0]) if isinstance(s, ast.Assign) and dotted(s.targets[0]) == dv]
         ok = len(dd) == 1 and isinstance(dd[0].value, ast.ListComp) and len(dd[0].value.generators[0].ifs) == 1 and grp in names_in(dd[0].value.generators[0].ifs[0]) and isinstance(dd[0].value.generators[0].ifs[0], ast.Compare) and isinstance(dd[0].value.generators[0].ifs[0].ops[0], ast.In)
+        if ok:
+            # membership of the discipline OBJECT in the group: two disciplines may have the same name, and a test on the
+            # name (or any attribute) pulls a namesake that is not coupled into the inner MDA
+            g_ = dd[0].value.generators[0]
+            t_ = g_.ifs[0]
+            ok = dotted(t_.left) == dotted(g_.target) and dotted(t_.comparators[0]) == grp and dotted(dd[0].value.elt) == dotted(g_.target)
     ctx.ob("8.3-once", con3, ok, "the inner MDA of a group must contain exactly the disciplines of that group", node=(mda or loops)[0])
 
 
